@@ -1470,6 +1470,8 @@ def check(rep, tier, seed, driver):
         rep.count("prox_overflow_queries", info.get("overflow", 0))
 
     reused_buffer_stream(rep, rng, 60 if quick else 600)
+    import kd_scan
+    kd_scan.report(rep)
 
     # generator floors
     h = rep.hist
